@@ -296,4 +296,52 @@ theorem ibigPow_spec (W : Nat) (hW : 1 ≤ W) (a : SRepr) (exp : Nat) (ha : a.WF
     rw [neg_pow_int]
     by_cases h : exp % 2 = 1 <;> simp [h]
 
+/-- the sign of `IBig::pow`: negative iff the base is negative and the exponent is odd -/
+theorem ibigPow_neg_iff (W : Nat) (hW : 1 ≤ W) (a : SRepr) (exp : Nat) (ha : a.WF W) :
+    (ibigPow W a exp).value W < 0 ↔ (a.value W < 0 ∧ exp % 2 = 1) := by
+  obtain ⟨an, am⟩ := a
+  have hu := ubigPow_spec W hW am exp ha.1
+  simp only [ibigPow, SRepr.value_mk]
+  rw [withSign_value, hu.1]
+  cases an with
+  | false =>
+    simp only [Bool.false_and, Bool.false_eq_true, if_false]
+    constructor
+    · intro h; exfalso; have : (0 : Int) ≤ ((am.value W ^ exp : Nat) : Int) := Int.natCast_nonneg _; omega
+    · intro h; exfalso; have : (0 : Int) ≤ ((am.value W : Nat) : Int) := Int.natCast_nonneg _; omega
+  | true =>
+    have hm : am.value W ≠ 0 := ha.2 rfl
+    have hpos : 0 < am.value W ^ exp := Nat.pos_of_ne_zero (pow_ne_zero _ hm)
+    generalize am.value W ^ exp = q at hpos
+    generalize am.value W = m at hm
+    by_cases h : exp % 2 = 1
+    · simp [h]; omega
+    · simp [h]
+
+/-- when `exp * shift` does not fit `usize` the exact result has more than `2^64` bits -/
+theorem powShiftOverflows_huge (n exp : Nat) (h : powShiftOverflows n exp = true) :
+    2 ^ (2 ^ usizeBits) ≤ n ^ exp := by
+  simp only [powShiftOverflows, Bool.and_eq_true, bne_iff_ne, ne_eq, decide_eq_true_eq] at h
+  obtain ⟨hs, hov⟩ := h
+  have hspec := trailingZeros_spec n
+  have hn : n ≠ 0 := by
+    intro e; subst e; exact hs trailingZeros_zero
+  generalize trailingZeros n = s at *
+  have hq : 1 ≤ n / 2 ^ s := by
+    rcases Nat.eq_zero_or_pos (n / 2 ^ s) with h0 | h0
+    · rw [h0, Nat.zero_mul] at hspec; exact absurd hspec.symm hn
+    · exact h0
+  have hge : 2 ^ s ≤ n := by
+    calc 2 ^ s = 1 * 2 ^ s := (Nat.one_mul _).symm
+      _ ≤ n / 2 ^ s * 2 ^ s := Nat.mul_le_mul_right _ hq
+      _ = n := hspec
+  calc 2 ^ (2 ^ usizeBits) ≤ 2 ^ (exp * s) := Nat.pow_le_pow_right (by omega) hov
+    _ = (2 ^ s) ^ exp := by rw [Nat.mul_comm, Nat.pow_mul]
+    _ ≤ n ^ exp := Nat.pow_le_pow_left hge _
+
+theorem powShiftOverflows_witness : powShiftOverflows 4 (2 ^ 63) = true := by
+  have h : trailingZeros 4 = 2 := trailingZeros_two_pow 2
+  simp only [powShiftOverflows, h, usizeBits]
+  decide
+
 end Dashu.Model
